@@ -36,6 +36,7 @@ type poolEntry struct {
 type opRecord struct {
 	ns   map[string]string // this operation's prefix bindings (nil: the default ones)
 	nofn map[string]bool   // user functions NOT bound in this operation
+	vals map[string]world.Value // this operation's values of the scalar variables
 	desc string
 	req  world.ExecReq
 	vars map[string]int // node-set variable -> held index
@@ -186,6 +187,9 @@ func (s *session) exec(rec opRecord, repeatOf int) {
 		if err != nil {
 			return
 		}
+		b.Vars[name] = v
+	}
+	for name, v := range rec.vals {
 		b.Vars[name] = v
 	}
 	if rec.ns != nil {
@@ -431,7 +435,7 @@ func Run(t *simkit.Tape, o *simkit.Outcome, full bool) {
 
 	// seed the pool and the held results with shapes that produce reverse order
 	// and spare capacity
-	seedExprs := []string{"//*/@*", "/*/@*", "/*/*/@*", "//*[1]/@*", "/*/*[position() < 3]/@*", "/*/*[position() != 2]/@*", "/*/*[last()]/@* | /*/*[1]/@*", "//.", "//self::node()", "/*//.", "//*", "//*/ancestor::*", "//node()/preceding-sibling::node()", "//@*", "/*/*", "//text()", "//*[last()]/ancestor-or-self::*", "//*/preceding::*", "//*/namespace::*", "/"}
+	seedExprs := []string{"//*[$n]", "(//*)[$n]", "/*/*[$n]", "//*[$b]", "//*[$s]", "//*[*[$n]]", "//*/@*", "/*/@*", "/*/*/@*", "//*[1]/@*", "/*/*[position() < 3]/@*", "/*/*[position() != 2]/@*", "/*/*[last()]/@* | /*/*[1]/@*", "//.", "//self::node()", "/*//.", "//*", "//*/ancestor::*", "//node()/preceding-sibling::node()", "//@*", "/*/*", "//text()", "//*[last()]/ancestor-or-self::*", "//*/preceding::*", "//*/namespace::*", "/"}
 	nSeed := 1 + t.Draw(3)
 	for i := 0; i < nSeed; i++ {
 		str := seedExprs[t.Draw(len(seedExprs))]
@@ -533,6 +537,26 @@ func Run(t *simkit.Tape, o *simkit.Outcome, full bool) {
 			if ns != nil {
 				s.o.Probe("query-with-rebound-prefixes")
 			}
+			// the same compiled expression under other values (and types) of the scalar variables
+			var vals map[string]world.Value
+			if t.Bool(1, 3) {
+				vals = map[string]world.Value{}
+				switch t.Draw(4) {
+				case 0:
+					vals["n"] = world.Value{Type: "number", Num: float64(1 + t.Draw(4))}
+				case 1:
+					vals["n"] = world.Value{Type: "string", Str: "yes"}
+					vals["s"] = world.Value{Type: "number", Num: 2}
+				case 2:
+					vals["n"] = world.Value{Type: "bool", Bool: t.Bool(1, 2)}
+					vals["b"] = world.Value{Type: "number", Num: float64(t.Draw(3))}
+				case 3:
+					vals["s"] = world.Value{Type: "string", Str: []string{"b", "de", "", "item"}[t.Draw(4)]}
+					vals["b"] = world.Value{Type: "bool", Bool: t.Bool(1, 2)}
+				}
+				nsDesc += fmt.Sprintf(", scalars rebound %v", vals)
+				s.o.Probe("query-with-rebound-scalar-variables")
+			}
 			var nofn map[string]bool
 			if len(s.bind.Funcs) > 0 && t.Bool(1, 3) {
 				nofn = map[string]bool{}
@@ -545,7 +569,7 @@ func Run(t *simkit.Tape, o *simkit.Outcome, full bool) {
 				s.o.Probe("query-with-functions-unbound")
 			}
 			desc := fmt.Sprintf("Exec(%s, e%d%s%s%s)", s.w.PathOf(ctx), pi, map[bool]string{true: ", caller-owned maps", false: ""}[own], nsDesc, prefixIf(", ", varDesc(s, vars)))
-			s.exec(opRecord{desc: desc, req: world.ExecReq{Expr: s.pool[pi].Str, Ctx: ctx}, vars: vars, own: own, ns: ns, nofn: nofn}, -1)
+			s.exec(opRecord{desc: desc, req: world.ExecReq{Expr: s.pool[pi].Str, Ctx: ctx}, vars: vars, own: own, ns: ns, nofn: nofn, vals: vals}, -1)
 		case 2: // query whose result slice the caller keeps
 			var cands []int
 			for i, p := range s.pool {
